@@ -100,8 +100,12 @@ def h64(obj) -> int:
 # --------------------------------------------------------------------------
 # binding to the repository under test
 # --------------------------------------------------------------------------
+_BOUND = {'repo': None}
+
+
 def bind_repo(repo: str):
     repo = os.path.abspath(repo)
+    _BOUND['repo'] = repo
     if sys.path[0] != repo:
         sys.path.insert(0, repo)
     os.environ.setdefault('PYTHONDONTWRITEBYTECODE', '1')
@@ -135,12 +139,41 @@ def _worker_init(prop_name, repo, tier, scratch_root, quiet):
     _W['tier'] = tier
 
 
+def frame_under_test(exc):
+    """'function (file:line)' of the innermost traceback frame that belongs to the code under test, provided no harness
+    frame lies deeper (i.e. the library raised and the harness did not expect it); None when the harness itself raised"""
+    repo = _BOUND['repo']
+    if not repo:
+        return None
+    harness = os.path.join(VERIF, 'mc')
+    for fr in reversed(traceback.extract_tb(exc.__traceback__)):
+        fn = os.path.abspath(fr.filename)
+        if fn.startswith(harness + os.sep):
+            return None
+        if fn.startswith(repo + os.sep):
+            return f"{fr.name} ({os.path.relpath(fn, repo)}:{fr.lineno})"
+    return None
+
+
+def run_shard_guarded(mod, shard, tier, res):
+    """run_shard; an exception that escapes from the code under test in an operation the harness took for valid is a
+    verdict about that code (the operation does not complete), not a failure of the harness"""
+    try:
+        mod.run_shard(shard, tier, res)
+    except Exception as e:  # noqa
+        where = frame_under_test(e)
+        if where is None:
+            raise
+        res.violation('unexpected-exception', dict(whole_shard=True, shard=shard), dict(exc=type(e).__name__, where=where.split(' (')[0]),
+                      'the operation completes', f'{type(e).__name__}: {e} in {where}')
+
+
 def _worker_run(args):
     idx, shard = args
     t0 = time.time()
     try:
         res = ShardResult()
-        _W['mod'].run_shard(shard, _W['tier'], res)
+        run_shard_guarded(_W['mod'], shard, _W['tier'], res)
         out = res.pack()
         for v in out['violations']:
             v['shard'] = shard
@@ -401,9 +434,13 @@ def run_replay(prop_name, repo, path, as_json):
         if doc.get('history_dependent') and doc.get('shard') is not None:
             res = ShardResult()
             res.MAX_VIOL = 10 ** 9
-            mod.run_shard(doc['shard'], doc.get('tier', 'quick'), res)
+            run_shard_guarded(mod, doc['shard'], doc.get('tier', 'quick'), res)
             want = json.dumps(case, sort_keys=True)
             return [v for v in res.violations if json.dumps(v['case'], sort_keys=True, default=repr) == want]
+        if isinstance(case, dict) and case.get('whole_shard'):
+            res = ShardResult()
+            run_shard_guarded(mod, case['shard'], doc.get('tier', 'quick'), res)
+            return [v for v in res.violations if v['clause'] == 'unexpected-exception']
         return mod.replay(case)
 
     if as_json:
